@@ -202,13 +202,25 @@ func Options(cfg Config) []func(*graph.Options) {
 	if cfg.Inverse {
 		opts = append(opts, graph.InReverseOrder)
 	}
+	// variation that the configuration does not fix: how "unbounded" is spelled, and the order in which roots are listed
+	h := 0
+	for _, ch := range cfg.Key() {
+		h = (h*31 + int(ch)) & 0xffff
+	}
 	if cfg.Limit > 0 {
 		opts = append(opts, graph.WithMaxConcurrency(cfg.Limit))
+	} else if spell := []int{1, 0, -1, -100}[h%4]; spell <= 0 { // no option at all, 0, -1 and any negative number all mean "no limit"
+		opts = append(opts, graph.WithMaxConcurrency(spell))
 	}
 	if len(cfg.After) > 0 {
 		var r []string
 		for _, a := range cfg.After {
 			r = append(r, Name(a))
+		}
+		if (h/4)%2 == 1 { // the roots in descending order
+			for i, j := 0, len(r)-1; i < j; i, j = i+1, j-1 {
+				r[i], r[j] = r[j], r[i]
+			}
 		}
 		opts = append(opts, graph.WithRootNodesAndDown(r))
 	}
